@@ -93,6 +93,15 @@ Theorem C10_adjacency_is_inverse_image : forall ops,
 Proof. exact (fun ops => ginv_adjacency _ (ginv_history ops)). Qed.
 Print Assumptions C10_adjacency_is_inverse_image.
 
+(* rootEdges of a node = the root edges whose child it is (what the walk uses to end a chain) *)
+Theorem C10_root_edges_exact : forall ops,
+  let g := state_after empty_graph ops in
+  NoDup (g_roots g) /\
+  forall n f, In (n, f) (g_roots g) <->
+              exists e, In e (g_edges g) /\ e_root e = true /\ e_child e = n /\ e_fp e = f.
+Proof. exact (fun ops => rinv_roots_exact _ (rinv_history ops)). Qed.
+Print Assumptions C10_root_edges_exact.
+
 (* any two insertion orders of the same insertions give the same nodes, the same
    edges with the same root flags and children, and the same issuer for every
    edge that at most one node of the graph can issue *)
